@@ -41,6 +41,9 @@ def itoa (n : Nat) : Str := (Nat.toDigits 10 n)
 
 def superscript (n : Nat) : Str := (itoa n).map superDigit
 
+/-- `superscript(number)` as the code calls it, with an `int`: only ever a link count. -/
+def superscriptInt (n : Int) : Str := superscript n.toNat
+
 def link (c : Colors) (text : Str) (number : Nat) : Str :=
   color c (underline text ++ superscript number)
 
